@@ -1,100 +1,8 @@
-(* C05: dispatch is exact. *)
-From NV Require Import Lib.Base Lib.ListExt Codec.Lang Codec.Def Codec.Sem Codec.Total Codec.Dispatch
-  Gen.GenMsgs Gen.GenTypes Gen.GenDispatch Spec.MsgTypes.
+(* C05: dispatch is exact (generic in the record of translated tables; instantiated in Codec/Final.v). *)
+From NV Require Import Lib.Base Lib.ListExt Codec.Lang Codec.Def Codec.Sem Codec.Total Codec.LoopLemmas Codec.Dispatch
+  Spec.MsgTypes.
 From Coq Require Import String ZifyN ZifyNat ZifyBool.
 Open Scope N_scope.
-
-(* ---- the optional loop never touches a mandatory position ---- *)
-
-Lemma find_opt_spec d t i j sd :
-  find_opt d t i = Some (j, sd) ->
-  (i <= j)%nat /\ nth_error d (j - i) = Some sd /\ sd_mand sd = false.
-Proof.
-  revert i. induction d as [|x r IH]; intros i H; [discriminate|].
-  cbn [find_opt] in H. destruct (negb (sd_mand x) && (sd_iei x =? t))%bool eqn:E.
-  - inversion H; subst. replace (j - j)%nat with 0%nat by lia. cbn.
-    apply andb_true_iff in E as [E _]. apply negb_true_iff in E. auto.
-  - destruct (IH (S i) H) as (A & B & C). split; [lia|]. split; [|exact C].
-    replace (j - i)%nat with (S (j - S i)) by lia. exact B.
-Qed.
-
-Lemma nth_error_set_nth_other {A} (l : list A) i j x :
-  i <> j -> nth_error (set_nth l i x) j = nth_error l j.
-Proof.
-  revert i j. induction l as [|h t IH]; intros [|i] [|j] H; cbn; auto; try congruence.
-Qed.
-
-Lemma set_nth_length {A} (l : list A) i x : List.length (set_nth l i x) = List.length l.
-Proof. revert i. induction l as [|h t IH]; intros [|i]; cbn; auto. Qed.
-
-Lemma dec_loop_keeps_mand d : forall fuel m bs m' j sdj,
-  dec_loop fuel d m bs = Ok m' ->
-  nth_error d j = Some sdj -> sd_mand sdj = true ->
-  nth_error m' j = nth_error m j.
-Proof.
-  induction fuel as [|f IH]; intros m bs m' j sdj H Hj Hm.
-  - destruct bs; cbn in H; [inversion H; reflexivity|discriminate].
-  - destruct bs as [|b rest]; cbn [dec_loop] in H; [inversion H; reflexivity|].
-    destruct (find_opt d (classify b) 0) as [[i sd]|] eqn:Ef.
-    + destruct (dec_slot sd b (new_val sd b) rest) as [[v r]| | |]; try discriminate.
-      cbn [obind fst snd] in H.
-      rewrite (IH _ _ _ j sdj H Hj Hm).
-      apply nth_error_set_nth_other.
-      apply find_opt_spec in Ef as (_ & B & C). rewrite Nat.sub_0_r in B.
-      intro; subst. congruence.
-    + eapply IH; eassumption.
-Qed.
-
-(* ---- the header octets are the body's first slots ---- *)
-
-Lemma dec_mand_header hlen : forall d bs m rest,
-  header_slots_ok hlen d = true -> dec_mand d bs = Ok (m, rest) ->
-  (hlen <= List.length bs)%nat /\
-  firstn hlen m = map (fun b => Some (mkie 0 0 [b])) (firstn hlen bs).
-Proof.
-  induction hlen as [|h IH]; intros d bs m rest Hok Hd.
-  - split; [lia|reflexivity].
-  - unfold header_slots_ok in Hok. apply andb_true_iff in Hok as [Hlen Hall].
-    destruct d as [|sd t]; [cbn in Hlen; discriminate|].
-    cbn [firstn forallb] in Hall. apply andb_true_iff in Hall as [Hsd Hrest].
-    apply andb_true_iff in Hsd as [Hsd Hv]. apply andb_true_iff in Hsd as [Hm Hl].
-    apply negb_true_iff in Hl.
-    cbn [dec_mand] in Hd. rewrite Hm in Hd.
-    unfold dec_slot, dec_len in Hd. rewrite Hl in Hd. cbn [obind fst snd] in Hd.
-    unfold dec_val in Hd. destruct (sd_val sd); try discriminate.
-    destruct (take 1 bs) as [[x r]|] eqn:Et; [|discriminate]. cbn [obind fst snd] in Hd.
-    destruct (dec_mand t r) as [[m1 r1]| | |] eqn:E1; try discriminate. cbn [obind fst snd] in Hd.
-    inversion Hd; subst. clear Hd.
-    apply take_length in Et as (Lx & Lr & Ebs).
-    assert (Hok' : header_slots_ok h t = true).
-    { unfold header_slots_ok. apply andb_true_iff. split; [|exact Hrest].
-      cbn [List.length] in Hlen. apply Nat.leb_le in Hlen. apply Nat.leb_le. lia. }
-    destruct (IH t r m1 rest Hok' E1) as [Hl1 Hf1].
-    destruct x as [|b [|]]; cbn in Lx; try lia. subst bs. cbn [app List.length firstn map] in *.
-    split; [lia|]. rewrite Hf1. unfold with_oct, zero_val. cbn. reflexivity.
-Qed.
-
-Lemma decode_header d hlen bs m :
-  header_slots_ok hlen d = true -> decode_def d bs = Ok m ->
-  (hlen <= List.length bs)%nat /\
-  firstn hlen m = map (fun b => Some (mkie 0 0 [b])) (firstn hlen bs).
-Proof.
-  intros Hok H. unfold decode_def in H.
-  destruct (dec_mand d bs) as [[m0 rest]| | |] eqn:E; try discriminate. cbn [obind fst snd] in H.
-  destruct (dec_mand_header hlen d bs m0 rest Hok E) as [Hl Hf]. split; [exact Hl|].
-  rewrite <- Hf.
-  (* positions below hlen are mandatory, the loop leaves them alone *)
-  apply nth_error_ext_firstn. intros j Hj.
-  unfold header_slots_ok in Hok. apply andb_true_iff in Hok as [Hlen Hall].
-  apply Nat.leb_le in Hlen.
-  destruct (nth_error d j) as [sdj|] eqn:Ej; [|apply nth_error_None in Ej; lia].
-  assert (Hmand : sd_mand sdj = true).
-  { rewrite forallb_forall in Hall.
-    assert (In sdj (firstn hlen d)).
-    { apply nth_error_In with (n := j). rewrite nth_error_firstn_lt by assumption. exact Ej. }
-    apply Hall in H0. apply andb_true_iff in H0 as [H0 _]. apply andb_true_iff in H0 as [H0 _]. exact H0. }
-  eapply dec_loop_keeps_mand; eassumption.
-Qed.
 
 (* ---- the translated tables are the pinned TS 24.501 tables ---- *)
 
@@ -110,12 +18,12 @@ Definition opt_string_eqb (a b : option string) : bool :=
 
 Definition octets : list N := map N.of_nat (seq 0 256).
 
-Definition tables_pinned : bool :=
-  forallb (fun ty => opt_string_eqb (dec_lookup disp_GmmMessageDecode ty) (assocN ty gmm_types) &&
-                     opt_string_eqb (dec_lookup disp_GsmMessageDecode ty) (assocN ty gsm_types) &&
-                     opt_string_eqb (enc_lookup disp_GmmMessageEncode ty)
+Definition tables_pinned (T : tables) : bool :=
+  forallb (fun ty => opt_string_eqb (dec_lookup (t_gmm_dec T) ty) (assocN ty gmm_types) &&
+                     opt_string_eqb (dec_lookup (t_gsm_dec T) ty) (assocN ty gsm_types) &&
+                     opt_string_eqb (enc_lookup (t_gmm_enc T) ty)
                                     (option_map (fun n => "Encode" ++ n)%string (assocN ty gmm_types)) &&
-                     opt_string_eqb (enc_lookup disp_GsmMessageEncode ty)
+                     opt_string_eqb (enc_lookup (t_gsm_enc T) ty)
                                     (option_map (fun n => "Encode" ++ n)%string (assocN ty gsm_types)))
           octets.
 
@@ -130,13 +38,13 @@ Proof.
 Qed.
 
 (* every dispatchable message starts with the header octets as one-octet mandatory slots *)
-Definition headers_checked : bool :=
+Definition headers_checked (T : tables) : bool :=
   forallb (fun ty =>
-    match dec_lookup disp_GmmMessageDecode ty with
-    | Some name => match find_def name with Some d => header_slots_ok 3 d | None => false end
+    match dec_lookup (t_gmm_dec T) ty with
+    | Some name => match find_def T name with Some d => header_slots_ok 3 d | None => false end
     | None => true end &&
-    match dec_lookup disp_GsmMessageDecode ty with
-    | Some name => match find_def name with Some d => header_slots_ok 4 d | None => false end
+    match dec_lookup (t_gsm_dec T) ty with
+    | Some name => match find_def T name with Some d => header_slots_ok 4 d | None => false end
     | None => true end) octets.
 
 Definition pinned (gmm : bool) : list (N * string) := if gmm then gmm_types else gsm_types.
@@ -159,20 +67,21 @@ Lemma strip_prefix_app p s : strip_prefix p (p ++ s) = Some s.
 Proof. unfold strip_prefix. rewrite prefix_app, substring_app. reflexivity. Qed.
 
 Section WithChecks.
-  Hypothesis Hdisp : dispatch_ok = true.
-  Hypothesis Hpin : tables_pinned = true.
-  Hypothesis Hhdr : headers_checked = true.
+  Variable T : tables.
+  Hypothesis Hdisp : dispatch_ok T = true.
+  Hypothesis Hpin : tables_pinned T = true.
+  Hypothesis Hhdr : headers_checked T = true.
 
   Lemma consts :
-    gmm_header_len = 3 /\ gsm_header_len = 4 /\ gmm_type_index = 2 /\ gsm_type_index = 3 /\
-    epd_gmm = 126 /\ epd_gsm = 46 /\ part_headers_ok true = true /\ part_headers_ok false = true.
+    t_gmm_hlen T = 3 /\ t_gsm_hlen T = 4 /\ t_gmm_tix T = 2 /\ t_gsm_tix T = 3 /\
+    t_epd_gmm T = 126 /\ t_epd_gsm T = 46.
   Proof.
     unfold dispatch_ok in Hdisp. repeat (apply andb_true_iff in Hdisp as [Hdisp ?]).
     repeat match goal with H : (_ =? _) = true |- _ => apply N.eqb_eq in H end. tauto.
   Qed.
 
   Lemma dec_lookup_pinned (gmm : bool) ty : ty < 256 ->
-    dec_lookup (if gmm then disp_GmmMessageDecode else disp_GsmMessageDecode) ty = assocN ty (pinned gmm).
+    dec_lookup (if gmm then (t_gmm_dec T) else (t_gsm_dec T)) ty = assocN ty (pinned gmm).
   Proof.
     intro Hty. unfold tables_pinned in Hpin. rewrite forallb_forall in Hpin.
     specialize (Hpin ty (in_octets ty Hty)). repeat (apply andb_true_iff in Hpin as [Hpin ?]).
@@ -180,8 +89,8 @@ Section WithChecks.
   Qed.
 
   Lemma headers_ok (gmm : bool) ty name d : ty < 256 ->
-    dec_lookup (if gmm then disp_GmmMessageDecode else disp_GsmMessageDecode) ty = Some name ->
-    find_def name = Some d -> header_slots_ok (hlen_of gmm) d = true.
+    dec_lookup (if gmm then (t_gmm_dec T) else (t_gsm_dec T)) ty = Some name ->
+    find_def T name = Some d -> header_slots_ok (hlen_of gmm) d = true.
   Proof.
     intros Hty Hl Hd. unfold headers_checked in Hhdr. rewrite forallb_forall in Hhdr.
     specialize (Hhdr ty (in_octets ty Hty)). apply andb_true_iff in Hhdr as [H1 H2].
@@ -192,7 +101,7 @@ Section WithChecks.
 
   (* decoding through a part decoder: which body, which header *)
   Theorem part_decode_exact (gmm : bool) bs pm : bytes_ok bs ->
-    part_decode gmm bs = Ok pm ->
+    part_decode T gmm bs = Ok pm ->
     let h := hlen_of gmm in
     (h <= List.length bs)%nat /\ pm_gmm pm = gmm /\ pm_header pm = firstn h bs /\
     exists name m,
@@ -202,15 +111,15 @@ Section WithChecks.
   Proof.
     intros Hb H. destruct consts as (A & B & C & D & _).
     unfold part_decode in H.
-    assert (Eh : N.to_nat (if gmm then gmm_header_len else gsm_header_len) = hlen_of gmm)
+    assert (Eh : N.to_nat (if gmm then t_gmm_hlen T else t_gsm_hlen T) = hlen_of gmm)
       by (destruct gmm; [rewrite A|rewrite B]; reflexivity).
-    assert (Et : N.to_nat (if gmm then gmm_type_index else gsm_type_index) = (hlen_of gmm - 1)%nat)
+    assert (Et : N.to_nat (if gmm then t_gmm_tix T else t_gsm_tix T) = (hlen_of gmm - 1)%nat)
       by (destruct gmm; [rewrite C|rewrite D]; reflexivity).
     rewrite Eh, Et in H.
     destruct (take (hlen_of gmm) bs) as [[h r]|] eqn:Etk; [|discriminate].
     apply take_length in Etk as (Lh & Lr & Ebs).
     destruct (dec_lookup _ _) as [name|] eqn:El; [|discriminate].
-    destruct (find_def name) as [d|] eqn:Ed; [|discriminate].
+    destruct (find_def T name) as [d|] eqn:Ed; [|discriminate].
     destruct (decode_def d bs) as [m| | |] eqn:Em; try discriminate. cbn [obind] in H.
     inversion H; subst pm; clear H. cbn [pm_gmm pm_header pm_bodies].
     assert (Hh : h = firstn (hlen_of gmm) bs).
@@ -231,11 +140,11 @@ Section WithChecks.
 
   (* PlainNasDecode: routes on the first octet *)
   Theorem plain_decode_exact obs pm :
-    plain_decode obs = Ok pm ->
+    plain_decode T obs = Ok pm ->
     exists b t, obs = Some (b :: t) /\
-      ((b = 126 /\ part_decode true (b :: t) = Ok pm) \/ (b = 46 /\ part_decode false (b :: t) = Ok pm)).
+      ((b = 126 /\ part_decode T true (b :: t) = Ok pm) \/ (b = 46 /\ part_decode T false (b :: t) = Ok pm)).
   Proof.
-    destruct consts as (_ & _ & _ & _ & E & F & _).
+    destruct consts as (_ & _ & _ & _ & E & F).
     unfold plain_decode. destruct obs as [[|b t]|]; try discriminate.
     rewrite E, F. intro H. exists b, t. split; [reflexivity|].
     destruct (N.eqb_spec b 126); [left; auto|].
@@ -243,24 +152,24 @@ Section WithChecks.
   Qed.
 
   Theorem plain_decode_rejects :
-    plain_decode None = Err /\ plain_decode (Some []) = Err /\
-    (forall b t, b <> 126 -> b <> 46 -> plain_decode (Some (b :: t)) = Err) /\
-    (forall gmm bs, (List.length bs < hlen_of gmm)%nat -> part_decode gmm bs = Err) /\
+    plain_decode T None = Err /\ plain_decode T (Some []) = Err /\
+    (forall b t, b <> 126 -> b <> 46 -> plain_decode T (Some (b :: t)) = Err) /\
+    (forall gmm bs, (List.length bs < hlen_of gmm)%nat -> part_decode T gmm bs = Err) /\
     (forall gmm bs, bytes_ok bs -> (hlen_of gmm <= List.length bs)%nat ->
-        assocN (nth (hlen_of gmm - 1) bs 0) (pinned gmm) = None -> part_decode gmm bs = Err).
+        assocN (nth (hlen_of gmm - 1) bs 0) (pinned gmm) = None -> part_decode T gmm bs = Err).
   Proof.
-    destruct consts as (A & B & C & D & E & F & _).
+    destruct consts as (A & B & C & D & E & F).
     split; [reflexivity|]. split; [reflexivity|]. split; [|split].
     - intros b t H1 H2. unfold plain_decode. rewrite E, F.
       destruct (N.eqb_spec b 126); [contradiction|]. destruct (N.eqb_spec b 46); [contradiction|reflexivity].
     - intros gmm bs Hl. unfold part_decode.
-      assert (Eh : N.to_nat (if gmm then gmm_header_len else gsm_header_len) = hlen_of gmm)
+      assert (Eh : N.to_nat (if gmm then t_gmm_hlen T else t_gsm_hlen T) = hlen_of gmm)
         by (destruct gmm; [rewrite A|rewrite B]; reflexivity).
       rewrite Eh. unfold take. destruct (Nat.ltb_spec (List.length bs) (hlen_of gmm)); [reflexivity|lia].
     - intros gmm bs Hb Hl Hn. unfold part_decode.
-      assert (Eh : N.to_nat (if gmm then gmm_header_len else gsm_header_len) = hlen_of gmm)
+      assert (Eh : N.to_nat (if gmm then t_gmm_hlen T else t_gsm_hlen T) = hlen_of gmm)
         by (destruct gmm; [rewrite A|rewrite B]; reflexivity).
-      assert (Et : N.to_nat (if gmm then gmm_type_index else gsm_type_index) = (hlen_of gmm - 1)%nat)
+      assert (Et : N.to_nat (if gmm then t_gmm_tix T else t_gsm_tix T) = (hlen_of gmm - 1)%nat)
         by (destruct gmm; [rewrite C|rewrite D]; reflexivity).
       rewrite Eh, Et. unfold take.
       destruct (Nat.ltb_spec (List.length bs) (hlen_of gmm)); [lia|].
@@ -275,24 +184,24 @@ Section WithChecks.
 
   (* PlainNasEncode: symmetric dispatch *)
   Theorem plain_encode_exact :
-    plain_encode None = Err /\
+    plain_encode T None = Err /\
     (forall pm, bytes_ok (pm_header pm) ->
        let ty := nth (hlen_of (pm_gmm pm) - 1) (pm_header pm) 0 in ty < 256 ->
        match assocN ty (pinned (pm_gmm pm)) with
-       | None => plain_encode (Some pm) = Err                   (* unknown type *)
+       | None => plain_encode T (Some pm) = Err                   (* unknown type *)
        | Some name =>
            forall m d, find (fun p => String.eqb (fst p) name) (pm_bodies pm) = Some (name, m) ->
-                       find_def name = Some d ->
-                       plain_encode (Some pm) = encode_def d m  (* the callee of that type on that body *)
+                       find_def T name = Some d ->
+                       plain_encode T (Some pm) = encode_def d m  (* the callee of that type on that body *)
        end).
   Proof.
     destruct consts as (A & B & C & D & _).
     split; [reflexivity|]. intros pm Hb ty Hty.
     unfold plain_encode, part_encode.
-    assert (Et : N.to_nat (if pm_gmm pm then gmm_type_index else gsm_type_index) = (hlen_of (pm_gmm pm) - 1)%nat)
+    assert (Et : N.to_nat (if pm_gmm pm then t_gmm_tix T else t_gsm_tix T) = (hlen_of (pm_gmm pm) - 1)%nat)
       by (destruct (pm_gmm pm); [rewrite C|rewrite D]; reflexivity).
     rewrite Et. fold ty.
-    assert (El : enc_lookup (if pm_gmm pm then disp_GmmMessageEncode else disp_GsmMessageEncode) ty =
+    assert (El : enc_lookup (if pm_gmm pm then (t_gmm_enc T) else (t_gsm_enc T)) ty =
                  option_map (fun n => "Encode" ++ n)%string (assocN ty (pinned (pm_gmm pm)))).
     { unfold tables_pinned in Hpin. rewrite forallb_forall in Hpin.
       specialize (Hpin ty (in_octets ty Hty)). repeat (apply andb_true_iff in Hpin as [Hpin ?]).
@@ -303,8 +212,4 @@ Section WithChecks.
     rewrite Hs. rewrite Hf, Hd. reflexivity.
   Qed.
 
-  (* the stricter reading "a header that names a type whose body pointer is nil is an error" fails: F20 *)
-  Theorem encode_nil_body_refuted :
-    exists pm, plain_encode (Some pm) = Panic.
-  Proof. exists (mkpm true [126; 0; 65] []). vm_compute. reflexivity. Qed.
 End WithChecks.
